@@ -61,7 +61,8 @@ KINDS = ['assign', 'emit', 'val', 'str', 'for', 'def', 'call', 'if', 'raise', 'r
          'float', 'tuple', 'printmulti', 'escstr', 'forval', 'ifval', 'onlyblank', 'ied_dot', 'print_then_raise', 'raise_noted', 'raise_syntax',
          'raise_group', 'raise_chained', 'raise_nomsg', 'blank_run', 'blank_edges', 'oneline_for', 'oneline_raise',
          'oneline_ied', 'oneline_silent', 'two_options_ws', 'skip_two_options_ws', 'echo_then_comment',
-         'semi_echo_comment', 'comment_then_echo', 'option_on_continuation', 'skip_comment_first']
+         'semi_echo_comment', 'comment_then_echo', 'option_on_continuation', 'skip_comment_first',
+         'marker_text', 'marker_midline', 'marker_midline_blank']
 # compound statements written on one line: the interactive interpreter wants a bare '...' line behind them
 ONELINE = ('oneline_for', 'oneline_raise', 'oneline_ied', 'oneline_silent')
 
@@ -193,6 +194,14 @@ def gen_example(rng, i, defined):
         src = ['try:', '    boom(%d)' % i, 'except E:', '    emit(-%d)' % i]
     elif k == 'pv':
         src = ['pv(%d)' % i]
+    elif k == 'marker_text':
+        # the program prints the very characters of the marker: under the standard module the want equals the output
+        src = ['print("<BLANKLINE>" * (T.append(%d) is None))' % i]
+    elif k == 'marker_midline':
+        src = ['print("a <BLANKLINE> b", val(%d))' % i]
+    elif k == 'marker_midline_blank':
+        # ... inside a line, next to a real empty line: only a marker alone on its line stands for an empty line
+        src = ['print("a <BLANKLINE> b\\n\\nc", val(%d))' % i]
     elif k == 'onlyblank':
         # an evaluated expression whose whole output is one empty line: the want is <BLANKLINE>
         src = ['print(end=T.append(%d) or "\\n")' % i]
